@@ -1157,6 +1157,10 @@ def r_rounding(A, ctx, scope, rule="R-ROUNDING"):
     cases = [("prox_log_sum", [("x", 1.7), ("alpha", 6.0), ("eps", 0.05)]),
              ("prox_log_sum", [("x", 0.4), ("alpha", 0.9), ("eps", 0.3)]),
              ("prox_log_sum", [("x", 3.0), ("alpha", 0.2), ("eps", 0.9)]),
+             # exact tie of the regime test sqrt(alpha) == eps (constants, not symbols): the bisection
+             # bracket is empty there
+             ("prox_log_sum", [("x", 0.5), ("alpha", "=1"), ("eps", "=1")]),
+             ("prox_log_sum", [("x", 2.5), ("alpha", "=1/4"), ("eps", "=1/2")]),
              ("prox_SCAD", [("value", 1.8), ("stepsize", 0.5), ("alpha", 1.0), ("gamma", 3.0)]),
              ("prox_MCP", [("value", 0.7), ("stepsize", 0.5), ("alpha", 1.0), ("gamma", 3.0)])]
     for fname, args in cases:
@@ -1165,10 +1169,10 @@ def r_rounding(A, ctx, scope, rule="R-ROUNDING"):
             raise AnalysisError(f"prox helper {fname} missing")
         key = f"{f.fq}::{','.join(f'{k}={v}' for k, v in args)}"
         try:
-            rg = Region({k: v for k, v in args})
+            rg = Region({k: v for k, v in args if not isinstance(v, str)})
             L = RegionLifter(prog, rg, max_steps=60000)
             try:
-                L.call_function(f, [sym(k) for k, _ in args])
+                L.call_function(f, [const(Fraction(v[1:])) if isinstance(v, str) else sym(k) for k, v in args])
             except Unsupported as e:
                 # a bisection is followed until its iterates are too close for the witness to
                 # separate them: everything lifted up to there still counts
